@@ -568,6 +568,9 @@ func (c *FnCtx) doReturn(in *ssa.Return) {
 	env := c.postEnv(in.Results, c.heap)
 	c.returnAnchor(in, env)
 	for k, cl := range c.fc.Ensures {
+		if cl.Defines {
+			continue // discharged syntactically (#frame.defines)
+		}
 		kind := fmt.Sprintf("post:%d", k+1)
 		if c.retCountTotal > 1 {
 			kind = fmt.Sprintf("post:%d@return%d", k+1, c.retCount)
